@@ -98,6 +98,7 @@ def ref_det(m, n):
 IDENT3 = (1, 0, 0, 0, 1, 0, 0, 0, 1)
 IDENT4 = (1, 0, 0, 0, 0, 1, 0, 0, 0, 0, 1, 0, 0, 0, 0, 1)
 VEC = {2: dm.Vec2, 3: dm.Vec3, 4: dm.Vec4}
+SUBVEC = {n: type('Point%d' % n, (c,), {}) for n, c in VEC.items()}     # user-defined subclasses
 LETTERS = {2: 'xy', 3: 'xyz', 4: 'xyzw'}
 
 
@@ -186,6 +187,16 @@ def exact_matrices(F, sel, facts):
             viol('matrix_times_vector_is_the_row_vector_product', n=n, a=a, v=v, got=tuple(got), expected=wantv)
         if tuple((A @ B) @ Vn(*v)) != tuple(B @ (A @ Vn(*v))):
             viol('product_then_vector_equals_successive_application', n=n)
+        # a point type of the program (a subclass of the library's vector) is a vector all the same
+        sub = SUBVEC[n](*v)
+        try:
+            gots = A @ sub
+        except Exception as exc:
+            viol('matrix_times_vector_is_the_row_vector_product', n=n, operand='instance of a Vec subclass',
+                 exception=repr(exc))
+        if len(tuple(gots)) != n or tuple(gots) != wantv:
+            viol('matrix_times_vector_is_the_row_vector_product', n=n, a=a, v=v, got=tuple(gots), expected=wantv,
+                 operand='instance of a Vec subclass (%s)' % type(sub).__name__)
         for name, got, wantm in (('add', A + B, [x + y for x, y in zip(a, b)]),
                                  ('sub', A - B, [x - y for x, y in zip(a, b)]),
                                  ('neg', -A, [-x for x in a])):
